@@ -351,12 +351,17 @@ func (f *MemFile) ReadDir(n int) (entries []fs.DirEntry, err error) {
 		entries = nd.dirEntries()
 		nd.mu.RUnlock()
 
-		f.dirIndex = 0
-
 		if n <= 0 {
+			f.dirIndex = 0
 			f.dirEntries = nil
+			f.dirNames = nil
 
 			return entries, nil
+		}
+
+		if f.dirNames == nil {
+			// no batch read is in progress through Readdirnames, which shares the position in the directory.
+			f.dirIndex = 0
 		}
 
 		f.dirEntries = entries
@@ -366,6 +371,7 @@ func (f *MemFile) ReadDir(n int) (entries []fs.DirEntry, err error) {
 	if start >= len(f.dirEntries) {
 		f.dirIndex = 0
 		f.dirEntries = nil
+		f.dirNames = nil
 
 		return nil, io.EOF
 	}
@@ -430,12 +436,17 @@ func (f *MemFile) Readdirnames(n int) (names []string, err error) {
 		names = nd.dirNames()
 		nd.mu.RUnlock()
 
-		f.dirIndex = 0
-
 		if n <= 0 {
+			f.dirIndex = 0
+			f.dirEntries = nil
 			f.dirNames = nil
 
 			return names, nil
+		}
+
+		if f.dirEntries == nil {
+			// no batch read is in progress through ReadDir, which shares the position in the directory.
+			f.dirIndex = 0
 		}
 
 		f.dirNames = names
@@ -444,6 +455,7 @@ func (f *MemFile) Readdirnames(n int) (names []string, err error) {
 	start := f.dirIndex
 	if start >= len(f.dirNames) {
 		f.dirIndex = 0
+		f.dirEntries = nil
 		f.dirNames = nil
 
 		return nil, io.EOF
